@@ -128,7 +128,7 @@ class Run(object):
         self.chooser = chooser                # f(step, enabled, prev, prev_state) -> tid
         self.max_steps = max_steps
         self.events = []
-        self.decisions = []                   # (enabled tuple, choice, prev, prev_state)
+        self.decisions = []                   # (enabled tuple, choice, prev, prev_state, #events so far)
         self.thr = {}
         self.order = []
         self.ctl = _Sem()
@@ -281,7 +281,7 @@ class Run(object):
             self.outcome = "nondet"
             self.abort = True
             return None
-        self.decisions.append((tuple(en), choice, prev, pstate))
+        self.decisions.append((tuple(en), choice, prev, pstate, len(self.events)))
         self.prev = choice
         return choice
 
@@ -373,6 +373,7 @@ def explore(scenario, bound, on_run, max_runs=None):
     executed exactly once.  Returns dict(runs=, truncated=)."""
     work = [()]               # schedule prefixes still to run
     n = 0
+    pruned = 0
     truncated = False
     while work:
         if max_runs is not None and n >= max_runs:
@@ -385,30 +386,38 @@ def explore(scenario, bound, on_run, max_runs=None):
         if run.outcome == "nondet":
             continue
         dec = run.decisions
+        # Redundant preemption: the prefix ended by preempting a thread in favour of one that
+        # immediately blocked on a held lock without emitting any event.  Everything below is
+        # also reachable (with one preemption less) from the sibling that did not preempt.
+        kp = len(prefix) - 1
+        if kp >= 0 and kp + 1 < len(dec) and is_preemption(*dec[kp][:4]):
+            nxt = dec[kp + 1]
+            if nxt[2] == dec[kp][1] and nxt[3] == BLOCKED and nxt[4] == dec[kp][4]:
+                pruned += 1
+                continue
         used = 0
         pre = []
-        for (en, ch, prev, pstate) in dec:
+        for (en, ch, prev, pstate, _ne) in dec:
             pre.append(used)
             if is_preemption(en, ch, prev, pstate):
                 used += 1
         chs = [d[1] for d in dec]
         # children: deviate at one position at or after the end of the prefix
         for k in range(len(dec) - 1, len(prefix) - 1, -1):
-            en, ch, prev, pstate = dec[k]
+            en, ch, prev, pstate, _ne = dec[k]
             for alt in en:
                 if alt == ch:
                     continue
                 u = pre[k] + (1 if is_preemption(en, alt, prev, pstate) else 0)
                 if u <= bound:
                     work.append(tuple(chs[:k]) + (alt,))
-    return {"runs": n, "truncated": truncated}
+    return {"runs": n, "truncated": truncated, "pruned": pruned}
 
 
 def count_preemptions(run):
-    return sum(1 for (en, ch, prev, ps) in run.decisions if is_preemption(en, ch, prev, ps))
+    return sum(1 for d in run.decisions if is_preemption(*d[:4]))
 
 
 def overlapped(run):
     """did two operations overlap in time (a context switch inside an operation)?"""
-    return any(ch != prev and prev is not None and ps in (LINE, BLOCKED)
-               for (en, ch, prev, ps) in run.decisions)
+    return any(d[1] != d[2] and d[2] is not None and d[3] in (LINE, BLOCKED) for d in run.decisions)
